@@ -178,7 +178,7 @@ func init() {
 			}
 			atoms = append(atoms, gen.Atoms()...)
 			return &harness.Plan{
-				N:      size(tier, 60000, 1200000),
+				N:      size(tier, 150000, 2000000),
 				Setup:  func(c *harness.Ctx) { hooksOn() },
 				Run:    func(c *harness.Ctx, k int) { runC09(c, atoms) },
 				Finish: reportHooks,
